@@ -366,6 +366,28 @@ func scenarioC10(r *Run) {
 			r.Fail("nil-vs-empty-external-differ/"+form, "countersignature made with %s external does not verify with the other spelling: %v", extClass(external), e)
 		}
 	}
+	// a COSE_Sign parent that is still collecting signatures: a holder whose
+	// signer has not signed yet sits in the list.  The countersignature covers
+	// the body, not the signer entries: it verifies (and can be made) all the
+	// same, as long as the message carries at least one signature.
+	if pms, ok := arg.(*cose.SignMessage); ok && len(pms.Signatures) > 0 {
+		cp := *pms
+		cp.Signatures = append(append([]*cose.Signature{}, pms.Signatures...), cose.NewSignature())
+		r.Check()
+		if e := made.libVerify(r, verifier, &cp, external); e != nil {
+			r.Fail("countersignature-depends-on-unsigned-holder/"+form, "a COSE_Sign parent with one more, not yet signed, signature holder: the countersignature over the body no longer verifies: %v", e)
+			return
+		}
+		cs2 := cose.NewCountersignature()
+		cs2.Headers.Protected[cose.HeaderLabelAlgorithm] = cose.Algorithm(key.Alg)
+		var e2 error
+		r.Lib(func() { e2 = cs2.Sign(ent, inner, &cp, external) })
+		if e2 != nil {
+			r.Fail("countersignature-depends-on-unsigned-holder/"+form, "a COSE_Sign parent with one more, not yet signed, signature holder cannot be countersigned: %v", e2)
+			return
+		}
+		r.Probe("parent-with-unsigned-holder")
+	}
 	// indifference to the parent's unprotected headers, in memory: whatever
 	// sits in the parent's unprotected bucket at that moment (entries the
 	// encoder would refuse, a not-yet-signed countersignature holder) must not
